@@ -6,7 +6,6 @@ direct law checks (projection realises the distance in l2/l1/linf; cross / det_2
 rotations; angles; cotan; circumcentre; angle reduction; n-th roots) and the deciding side-effect sentinel
 (mv/sentinels_c12.py) around EVERY call, over generated call sequences that include raising calls, starting from
 several numpy error configurations."""
-import cmath
 import math
 import os
 import random
@@ -99,16 +98,6 @@ def _wit_box(b):
         return {"min": lo.tolist(), "max": hi.tolist()}
     except Exception:
         return repr(b)[:200]
-
-
-def _safe(fn):
-    def cond(*a, **k):
-        with np.errstate(all="ignore"):
-            try:
-                return bool(fn(*a, **k))
-            except Exception:
-                return False
-    return cond
 
 
 def _post_project(self, pt, result):
@@ -653,11 +642,10 @@ def run_vec(desc, ctx):
             judged += 1
             ctx.check(good, "vec", "cross", "differs_from_exact_arithmetic",
                       "cross(A,B) differs from the exact rational value by more than 8 ulp of the sum of |terms|",
-                      A=floats_of(A), B=floats_of(B), got=floats_of(g) if good is False and not isinstance(g, str) else None,
-                      exact=[float(e) for e in ex])
+                      A=floats_of(A), B=floats_of(B), got=_finite_seq(got), exact=[float(e) for e in ex])
             if it == 0 and mag in ("int", "unit", "grid"):
                 ctx.sample({"law": "cross(A,B) == exact Fraction value (8 ulp of sum|terms|)", "A": floats_of(A), "B": floats_of(B),
-                            "got": floats_of(g), "exact": [float(e) for e in ex]})
+                            "got": _finite_seq(got), "exact": [float(e) for e in ex]})
         elif fn in ("det_2x2", "det_2x2c"):
             a = gen_vals(rng, 2, mag)
             b = [v * (1.0 + rng.uniform(-1e-12, 1e-12)) for v in a] if cancel else gen_vals(rng, 2, mag)
